@@ -121,7 +121,11 @@ Section Inst.
   | CDet (n : nat) (a : list (list elt))
   | CInvab (n m : nat) (a b : list (list elt))
   | CMatmul (n m p : nat) (a b : list (list elt))
-  | CTranspose (n m : nat) (a : list (list elt)).
+  | CTranspose (n m : nat) (a : list (list elt))
+  | CDotN (PA La Lb QB M : nat) (fa fb : list elt)
+  | CMatmulN (SA SB : list nat) (n La Lb p : nat) (fa fb : list elt)
+  | CScale (lft : bool) (sc : elt) (fa : list elt)
+  | CMatmulMixed (ra rb : nat).
 
   (* result rows and the contents of the argument arrays after the call *)
   Definition outcome := res (list (list elt) * list (list elt) * list (list elt)).
@@ -154,6 +158,18 @@ Section Inst.
     | CMatmul n m p a b => if negb (is_rect n m a && is_rect m p b) then Err ValueError else
         r <- matmul FElt n m p (of_rows FElt a) (of_rows FElt b) ;; Ok (r, a, b)
     | CTranspose n m a => Ok (transpose_rows elt m a, a, [])
+    | CDotN PA La Lb QB M fa fb =>
+        if negb (Nat.eqb La Lb) then Err ValueError else
+        r <- nd_dot FElt PA La QB M (of_list FElt fa) (of_list FElt fb) ;; Ok ([r], [fa], [fb])
+    | CMatmulN SA SB n La Lb p fa fb =>
+        if negb (bcast_ok SA SB && Nat.eqb La Lb) then Err ValueError else
+        r <- nd_matmul FElt SA SB n La p (of_list FElt fa) (of_list FElt fb) ;; Ok ([r], [fa], [fb])
+    | CMatmulMixed ra rb =>
+        (* known finding C15-3: la.matmul pairs the stacks of operands of the SAME rank only; with
+           different ranks, one of them >= 3, the shorter operand is indexed with too many indices *)
+        if negb (Nat.eqb ra rb) && Nat.leb 3 (Nat.max ra rb) then Err IndexError else Err OtherExn
+    | CScale lft sc fa =>
+        r <- nd_scale FElt lft sc (length fa) (of_list FElt fa) ;; Ok ([r], [fa], [])
     end.
 
   Definition outcome_same (x y : outcome) : bool :=
